@@ -117,6 +117,10 @@ def run(O, P):
         if i % 4 == 3:
             # spellings that are not normalised paths
             fa = rng.choice(["/app/lib/../src/a%d.js", "/app/./src/a%d.js", "/app//src/a%d.js", "./src/a%d.js", "src/../a%d.js"]) % i
+        elif i % 5 == 2:
+            # names outside ASCII (the embedded map carries them as UTF-8) and with a space
+            fa = rng.choice(["/app/src/café%d.js", "/app/日本語/a%d.js", "/app/src/a b%d.js", "/app/src/ü\U0001F600%d.js"]) % i
+            fb = "/app/lib/ñ%d.js" % i
         steps, expect = [], []
         use_evals = (i % 3 == 1)
         def rw(file, modified=True, ch=chained):
